@@ -4,6 +4,9 @@
 //   rel_int / rel_str / rel_dbl : relation {eq,ne,gt,ge,lt,le,expect,expect_msg} x operand pair
 //   raises                      : expected type E (10) x behaviour of fn (returns, throws each of the 10 types,
 //                                 throws int) x entry point (expect_raises macro / expect_raises_fn directly)
+//   raises_nested               : E (the 15 + std::nested_exception) x thrown object built by std::throw_with_nested / an own class
+//                                 deriving from the outer type and std::nested_exception, 1..4 layers deep, carrying any of the
+//                                 types / an int / nothing: the verdict follows the OUTER type, not what is carried inside
 //   truth                       : expect / expect_msg x a raw (non-bool) arithmetic predicate of 15 types; the relation
 //                                 of these two macros is "the predicate converts to true"
 // Every helper call is also made under ambient states of the C++ runtime that do not depend on the operands:
@@ -758,8 +761,8 @@ static void enum_raises_nested(Enum& en) {
           for (uint64_t w = 0; w < kNumWhere; w++) en.exec(Case("raises_nested").N(e).N(p).N(entry).N(w).N(l0));
     }
   // nested-in-nested: every outer layer x every std::throw_with_nested middle layer x a payload of each kind
-  // (logic_error, out_of_range, runtime_error, expectation_failed, an int, nothing)
-  static const uint64_t kPayloads2[] = {1, 3, 4, 6, kPayloadInt, kPayloadNone};
+  // (out_of_range, runtime_error, nothing)
+  static const uint64_t kPayloads2[] = {3, 4, kPayloadNone};
   for (uint64_t e = 0; e < static_cast<uint64_t>(kNumNestedExpected) && !en.stop; e++)
     for (uint64_t l0 = 0; l0 < kNumLayerCodes; l0++) {
       if (!en.mine(idx++)) continue;
@@ -770,8 +773,8 @@ static void enum_raises_nested(Enum& en) {
     }
   en.complete("16 expected types (the 15 of `raises` + std::nested_exception) x outer layer {std::throw_with_nested(T), own class deriving from T and "
               "std::nested_exception} x 15 outer types x carried exception {each of the 15 types, an int, nothing} x {macro, expect_raises_fn} x 5 ambient states; "
-              "nested-in-nested: the same outer layers x a std::throw_with_nested middle layer of each of the 15 types x carried {logic_error, out_of_range, "
-              "runtime_error, expectation_failed, an int, nothing} x 2 entry points x 5 ambient states");
+              "nested-in-nested: the same outer layers x a std::throw_with_nested middle layer of each of the 15 types x carried {out_of_range, "
+              "runtime_error, nothing} x 2 entry points x 5 ambient states");
 }
 
 static Case gen_raises_nested() {
@@ -1345,7 +1348,7 @@ int main(int argc, char** argv) {
   std::vector<SubCheck> checks;
   checks.push_back({"raises", run_raises, nullptr, 0, 0, 100, enum_raises});
   checks.push_back({"raises_tu", run_raises_tu, nullptr, 0, 0, 100, enum_raises_tu});
-  checks.push_back({"raises_nested", run_raises_nested, gen_raises_nested, 60000, 400000, 100, enum_raises_nested});
+  checks.push_back({"raises_nested", run_raises_nested, gen_raises_nested, 40000, 400000, 100, enum_raises_nested});
   checks.push_back({"once", run_once, gen_once, 80000, 400000, 100, enum_once});
   checks.push_back({"rel_int", run_rel_int, gen_rel_int, 160000, 800000, 100, enum_rel_int});
   checks.push_back({"rel_dbl", run_rel_dbl, gen_rel_dbl, 160000, 800000, 100, enum_rel_dbl});
